@@ -86,6 +86,16 @@ def sign_meet(a, b):
     return a if _SIGN_RANK[a] <= _SIGN_RANK[b] else b
 
 
+def _is_zero(o):
+    if isinstance(o, bool):
+        return False
+    if isinstance(o, (int, Fr)):
+        return o == 0
+    if isinstance(o, Poly):
+        return o.is_zero()
+    return False
+
+
 class DV(object):
     is_elem_ = True
     __slots__ = ('tags', 'kind', 'sign', 'sel', 'note')
@@ -135,14 +145,18 @@ class DV(object):
         return DV(tags, kind, sign)
 
     def __add__(self, o):
-        if isinstance(o, (int, Fr)) and not isinstance(o, bool) and o == 0:
-            return DV(self.tags, self.kind, self.sign, None)
+        if _is_zero(o):
+            return self                      # x + 0 is x
         return self._comb(o, 'add')
     __radd__ = __add__
 
     def __sub__(self, o):
+        if _is_zero(o):
+            return self
         return self._comb(o, 'sub')
-    __rsub__ = __sub__
+
+    def __rsub__(self, o):
+        return self._comb(o, 'sub')
 
     def __mul__(self, o):
         c = ndarr.concrete_real(o)
